@@ -72,14 +72,18 @@ func init() {
 		return x.uf("lib_errors.Is", SBool, asTerm(a[0]), asTerm(a[1])), true
 	}
 	// pure library functions kept uninterpreted (their meaning is shared with the spec side)
-	for _, n := range []string{"strings.TrimSpace", "path.Base", "filepath.Base", "path/filepath.Base", "strings.ToLower", "filepath.Dir", "path/filepath.Dir", "filepath.Clean", "path/filepath.Clean", "path.Clean", "path.Dir", "types.Package.Path", "types.Package.Name"} {
+	for _, n := range []string{"strings.TrimSpace", "path.Base", "filepath.Base", "path/filepath.Base", "strings.ToLower", "filepath.Dir", "path/filepath.Dir", "filepath.Clean", "path/filepath.Clean", "path.Clean", "path.Dir", "types.Package.Path", "types.Package.Name", "types.Interface.NumMethods", "types.Interface.NumEmbeddeds", "types.Interface.NumExplicitMethods"} {
 		n := n
 		libModels[n] = func(x *Exec, st *State, e *ast.CallExpr, a []Value, _ []types.Type) (Value, bool) {
 			var ts []Term
 			for _, v := range a {
 				ts = append(ts, asTerm(v))
 			}
-			return x.uf("lib_"+n, SStr, ts...), true
+			so := SStr
+			if strings.HasPrefix(n, "types.Interface.Num") {
+				so = SInt
+			}
+			return x.uf("lib_"+n, so, ts...), true
 		}
 	}
 	// strings.Split / Fields: a pure function returning an immutable slice of strings
@@ -1461,7 +1465,7 @@ func (x *Exec) evalSpecCall(e *ast.CallExpr, st *State) (Value, types.Type) {
 // propIn: a clause tag may list several properties ("C09,C10").
 func propIn(tag, prop string) bool {
 	for _, t := range strings.Split(tag, ",") {
-		if strings.TrimSpace(t) == prop {
+		if strings.TrimSuffix(strings.TrimSpace(t), "!") == prop {
 			return true
 		}
 	}
